@@ -21,6 +21,11 @@ SAMPLE = {"quick": 4000, "thorough": 60000}
 GT = {"quick": dict(MaxH=9, G=100, M=7, K=6, F=2, MaxLen=13),
       "thorough": dict(MaxH=10, G=100, M=8, K=7, F=2, MaxLen=15)}
 GT_SAMPLE = {"quick": 500, "thorough": 8000}
+# (P, LA, LB): common prefix, valid branch, branch with at most one invalid block
+FORK = {"quick": [(1, 2, 4), (2, 1, 3), (3, 0, 4), (4, 0, 3)],
+        "thorough": [(1, 0, 4), (1, 1, 3), (1, 2, 4), (2, 1, 3), (2, 2, 4), (1, 3, 5), (2, 3, 5), (3, 2, 4),
+                     (3, 0, 4), (4, 0, 4), (4, 0, 5), (5, 1, 4)]}
+FORK_SAMPLE = {"quick": 1500, "thorough": 40000}
 MAXH_TRACE = 16
 
 
@@ -56,6 +61,26 @@ def mc_gt(wd, t, rnd):
     return dist, gen_n, sample(scns, GT_SAMPLE[t], rnd)
 
 
+def mc_fork(wd, t, rnd):
+    """two-branch family: MC + scenario generation"""
+    dist = gen_n = 0
+    scns = []
+    for (P, LA, LB) in FORK[t]:
+        cfg = os.path.join(wd, "MC_ChainFork_%d_%d_%d.cfg" % (P, LA, LB))
+        write_cfg(cfg, "MCSpec", dict(MaxH=P + max(LA, LB) + 2, G=100, P=P, LA=LA, LB=LB, MaxLen=P + LA + LB),
+                  invariants=["QuiescentConsistent", "MicroEqualsBig", "StepsBounded", "PrintScenario"],
+                  properties=["TipNeverLower", "Terminates"])
+        rc, out = tlc("MC_ChainFork.tla", cfg, wd, workers=8, timeout=3000, heap="8g")
+        if not tlc_ok(out):
+            raise ToolError("MC_ChainFork(%d,%d,%d): %s" % (P, LA, LB, tlc_error_summary(out)))
+        d, g = tlc_stats(out)
+        dist += d
+        gen_n += g
+        scns += printed(out, "SCN")
+    log("MC_ChainFork: %d instances, %d distinct states, %d behaviours" % (len(FORK[t]), dist, len(scns)))
+    return dist, gen_n, sample(scns, FORK_SAMPLE[t], rnd)
+
+
 def deep_scenarios(rnd, n, max_blocks=12, invalid_p=0.35, tickets=False):
     """Seeded random scenarios beyond the TLC bound: 2-3 branches, back-and-forth growth, one invalid
     block at a random position, orphans by delivering out of order, duplicates."""
@@ -73,7 +98,7 @@ def deep_scenarios(rnd, n, max_blocks=12, invalid_p=0.35, tickets=False):
                 i = rnd.randrange(len(tips))
                 par = tips[i]
                 tips[i] = b
-            blocks.append(dict(id=b, parent=par, gt=(tickets and rnd.random() < 0.45),
+            blocks.append(dict(id=b, parent=par, gt=(rnd.random() < (0.45 if tickets else 0.75)),
                                w=rnd.choice([1, 2, 2, 3]), ok=True))
         if rnd.random() < invalid_p:
             x = rnd.choice(blocks[1:])
@@ -133,6 +158,11 @@ def run(pid, t, replay=None):
         log("MC_Chain: %d distinct states, %d generated" % (dist, gen_n))
         scns = gen(wd, t, rnd)
         scns += deep_scenarios(rnd, 300 if t == "quick" else 6000)
+        if pid in ("C03", "C04"):
+            d2, g2, s2 = mc_fork(wd, t, rnd)
+            dist += d2
+            gen_n += g2
+            scns += s2
         if pid == "C05":
             d2, g2, s2 = mc_gt(wd, t, rnd)
             dist += d2
